@@ -257,7 +257,23 @@ def run_case(case, ctx):
         if inv.unit_currency is not c2 or inv.term_currency is not c1:
             ctx.viol("inverted/currencies", f"{what}.inverted() = {inv!r}: currencies not swapped")
             return
-        check_normal_form(ctx, "inverted", inv, 1 / sr, f"{what}.inverted()")
+        si = check_normal_form(ctx, "inverted", inv, 1 / sr, f"{what}.inverted()")
+        if si is None:
+            return
+        # every rate inverts to the reciprocal of ITS OWN rate - also one that came out of an inversion (the
+        # 6-digit rounding does not round-trip, so this is not the original), and again for the same object
+        for rr, rate, w in ((inv, si, f"{what}.inverted().inverted()"), (r, sr, f"{what}.inverted() [second call]")):
+            try:
+                again = rr.inverted()
+            except ValueError:
+                if 1 / rate >= Fraction(1, 10 ** 6):
+                    ctx.viol("inverted2/raises", f"{w} raised ValueError although 1/rate = {fs(1 / rate)}")
+                continue
+            except Exception as exc:  # noqa: BLE001
+                ctx.viol(f"inverted2/raises/{type(exc).__name__}", f"{w} raised {type(exc).__name__}: {exc}")
+                continue
+            ctx.tick()
+            check_normal_form(ctx, "inverted2", again, 1 / rate, w)
     elif k == "invalid":
         ctx.nontrivial()
         ctx.label(f"why/{case['why']}")
